@@ -6,7 +6,7 @@ Mirrors the *code* (not what it should do) of
 
 * `core/genetic_code.py`      `GeneticCode.__getitem__`, `translate`, `sixframes`           (`old…`)
 * `core/new_alphabet.py`      `CharAlphabet.to_indices` (byte table), `seq_to_kmer_indices`,
-                              `KmerAlphabet.to_index`, `KmerAlphabet.to_indices` (result dtype!),
+                              `KmerAlphabet.to_index`, `KmerAlphabet.to_indices` (result dtype = `self.dtype`),
                               `convert_alphabet` (bytes.maketrans / bytes.translate)
 * `core/new_genetic_code.py`  `GeneticCode.__post_init__` (codons, anticodons, the two converters),
                               `__getitem__`, `translate(start, rc)`, `sixframes`             (`new…`)
@@ -262,8 +262,10 @@ def NewGC.plus (g : NewGC) (b : Nat) : Char := convByte (g.words.map g.toIndex) 
 def NewGC.minus (g : NewGC) (b : Nat) : Char := convByte (g.anti.map g.toIndex) g.codeSeq b
 
 /-- `translate(dna, start, rc)` for a `str`: slice, truncate, index, bytes, byte-translate, (reverse) -/
-def NewGC.translateIdx (g : NewGC) (idx : List Nat) (size : Nat) (rc : Bool) : List Char :=
-  let bytes := idx.flatMap (leBytes (byteWidth size))
+def NewGC.translateIdx (g : NewGC) (idx : List Nat) (rc : Bool) : List Char :=
+  -- `KmerAlphabet.to_indices` allocates its result with `self.dtype = get_array_type(len(self))`:
+  -- the width depends on the number of k-mer states (words), not on the sequence
+  let bytes := idx.flatMap (leBytes (byteWidth g.words.length))
   if rc then (bytes.map g.minus).reverse else bytes.map g.plus
 
 def trunc3 (d : List Char) : List Char :=
@@ -273,7 +275,7 @@ def NewGC.translateWith (g : NewGC) (alpha : List Char) (dna : List Char) (start
   let d1 := if start ≠ 0 then dna.drop start else dna
   let d2 := trunc3 d1
   let idx := toIndices g.ns g.gci g.gi (d2.map (monoIdx alpha))
-  g.translateIdx idx (d2.length / 3) rc
+  g.translateIdx idx rc
 
 def newTranslate (mt : MT) (seq : List Char) (dna : List Char) (start : Nat) (rc : Bool) : List Char :=
   let g := mkNewGC mt seq
